@@ -92,6 +92,8 @@ HOSTILE = [
     ('amsmath', '\\documentclass{article}\\usepackage{amsmath}\\begin{document}\\begin{align}a&=b\\\\c&=d\\end{align}\\end{document}'),
     ('register-first-token', '\\parindent=30pt \\tolerance=9000 \\documentclass{article}\\begin{document}Wq1x \\the\\parindent\\end{document}'),
     ('register-first-token-bare', '\\parskip=7pt plus 1pt Wq1x \\the\\parskip'),
+    # the same name starting with `if` is a \\newif switch here and an ordinary macro in a probe (and the other way round)
+    ('ifname-as-switch', '\\documentclass{article}\\begin{document}\\newif\\ifzqd \\iffalse \\ifzqd Wq1x\\else Wq2x\\fi \\fi Wq3x \\def\\ifzqm#1{[#1]}\\iffalse \\ifzqm{x}\\fi Wq4x\\end{document}'),
     ('register-from-register', '\\documentclass{article}\\begin{document}\\parindent=\\parskip \\parskip=\\baselineskip \\parindent=2\\parskip \\thinmuskip=\\medmuskip '
                                '\\medmuskip=3mu plus 1mu \\tolerance=\\pretolerance Wq1x \\the\\parindent\\end{document}'),
     ('mu-arguments', '\\documentclass{article}\\begin{document}Wq1x \\zqmuargs 3mu 4mu plus 1mu Wq2x \\zqmuargs{2mu}{\\thinmuskip} Wq3x\\end{document}'),
@@ -104,6 +106,7 @@ HOSTILE = [
     ('itemize-only', '\\documentclass{article}\\begin{document}\\begin{itemize}\\item Wq1x\\end{itemize}\\begin{description}\\item[Wq2x] Wq3x\\end{description}\\end{document}'),
 ]
 PROBES = [
+    '\\documentclass{article}\\begin{document}\\newcommand{\\ifzqd}[1]{(#1)}\\iffalse \\ifzqd{x}\\fi Wq1x \\newif\\ifzqm \\iffalse \\ifzqm Wq2x\\else Wq3x\\fi \\fi Wq4x\\end{document}',
     '\\documentclass{article}\\begin{document}\\begin{eqnarray}a&=&b\\label{r1}\\\\c&=&d\\label{r2}\\end{eqnarray}Wq1x \\ref{r1} \\ref{r2}\\end{document}',
     '\\documentclass{article}\\usepackage{longtable}\\begin{document}\\begin{longtable}{ll}Wq1x&Wq2x\\\\\\endhead Wq3x&Wq4x\\\\Wq5x&Wq6x\\end{longtable}\\end{document}',
     '\\documentclass{article}\\usepackage{amsmath}\\begin{document}\\begin{align}a&=b\\label{a1}\\\\c&=d\\label{a2}\\end{align}\\begin{gather}x\\\\y\\end{gather}\\ref{a1} \\ref{a2}\\end{document}',
@@ -164,8 +167,9 @@ def gen_doc(r):
 
 def cases(seed, tier, shard, nshards):
     # every hand-written document once, whatever the seed (the watched statements must not depend on the draw)
-    for i in common.sharded(len(HOSTILE), shard, nshards):
-        yield {'A': [list(HOSTILE[i])], 'B': ['probe', PROBES[i % len(PROBES)]], 'render': i % 3 == 0, 'renderer': 'HTML5' if i % 2 else 'XHTML'}
+    for i in common.sharded(len(HOSTILE) * len(PROBES), shard, nshards):
+        h, q = divmod(i, len(PROBES))
+        yield {'A': [list(HOSTILE[h])], 'B': ['probe', PROBES[q]], 'render': i % 7 == 0, 'renderer': 'HTML5' if i % 2 else 'XHTML'}
     for i in common.sharded(budget(tier)['n'], shard, nshards):
         r = common.rng_for(seed, PROP, i)
         As = [gen_doc(r) for _ in range(r.randint(1, 4))]
